@@ -356,6 +356,14 @@ func (e *Exec) havocAll(st *State, why string) {
 	// that later first reads see a fresh array instead.
 	e.ctr++
 	st.counts["heapgen"] = e.ctr
+	if st.counts["acquired"] == 0 && len(st.held) == 0 {
+		// an unbounded effect before any monitor entry: "old" (the linearisation
+		// pre-state) is the state after it
+		for k := range st.old {
+			delete(st.old, k)
+		}
+		st.old[genKey] = fmt.Sprint(e.ctr)
+	}
 	st.wrote("*", "*")
 	st.note("heap havoc: %s", why)
 }
